@@ -21,6 +21,7 @@ import (
 	decodepay "github.com/nbd-wtf/ln-decodepay"
 
 	"verif/harness/lnmodel"
+	"verif/harness/sched"
 )
 
 // ---------- abstract operations (input language of every driver) ----------
@@ -334,11 +335,16 @@ func (w *World) lnFacts(since int) []any { return w.lnFactsFor(since, "") }
 func (w *World) lnFactsFor(since int, hash string) []any {
 	calls := w.Net.CallsSince(since)
 	out := []any{}
+	me := sched.Gid()
 	for _, c := range calls {
 		if c.Node != w.Node.Name {
 			continue
 		}
 		if hash != "" && w.Conc && c.Hash != hash {
+			continue
+		}
+		// concurrent requests on the same quote: only the calls this request made itself
+		if w.Conc && c.Gid != me {
 			continue
 		}
 		a, bg, _ := amtFacts(c.Amount)
@@ -1003,6 +1009,7 @@ func (w *World) opRotate(op Op) *Event {
 
 func (w *World) opRestart(op Op) *Event {
 	w.Close()
+	w.cachedReqs, w.lastOKReq, w.lastFailedReq, w.okReqs = nil, nil, nil, nil // the response cache lives in the process
 	w.announce("restart", map[string]any{"rotate": op.Rotate, "fee": int(op.Fee)})
 	err, pan, msg := w.guard(func() error {
 		return w.load(op.Rotate, op.Fee)
@@ -1052,6 +1059,13 @@ func (w *World) opReplay(op Op) *Event {
 	base := w.lastOKReq
 	if variant == "failed" {
 		base = w.lastFailedReq
+	}
+	if variant == "identical-old" {
+		// the oldest request still in the cache, after later ones have been answered
+		base = nil
+		if len(w.cachedReqs) >= 2 {
+			base = w.cachedReqs[0]
+		}
 	}
 	if base == nil {
 		return w.emit("replay", map[string]any{"variant": variant, "skipped": true, "path": ""},
